@@ -13,7 +13,7 @@ import (
 func init() {
 	register(&propDef{
 		ID:          "C06",
-		Explanation: "Totality and promptness of the parser over all byte strings are runtime facts and are NOT decided. Decides the position-provenance clauses of the property, for all sites of package parser/v2 and goexpression: R1 every Expression/Range built by the parser goes through NewExpression/NewRange with positions that are parse.Position values obtained from the input being parsed (Position()/PositionAt(), or locals/parameters of that type); no Position, Range or Expression composite literal with position fields exists outside the three constructors, and the constructors copy index, line and column field by field; direct writes to Index/Line/Col exist only as a paired adjustment of Index and Col of the same position by the same constant; R2 every NameRange is NewRange(PositionAt(Index() − len(X.Name)), Position()) where X.Name is the field assigned by the name parser in the statement just before, for the same X; R3 (clamps) the bounds that come from go/parser positions are clamped before they are used to slice the source: in the extractor wrapper `end > len(content) → end = len(content)` and `start > end → start = end` follow the prefix subtraction and precede the return, and every slice bound taken from a go/ast End() position is tested (rejected or clamped) before the slice; parseGo slices and advances with the extractor's own start/end and converts them with PositionAt(from+start / from+end). NOT decided: absence of panics and hangs on arbitrary input, that the recorded text equals the source at the recorded range for every construct (value-level), error positions.",
+		Explanation: "Totality and promptness of the parser over all byte strings are runtime facts and are R4 (termination of the top-level loop) every parser that has read one of the template keywords (templ / css / script) turns each later failed sub-parse into an error — it never declines with ok=false and a nil error, because the Go-code reader un-reads keyword lines containing an opening parenthesis and asks these parsers again; R5 every write into a strings.Builder whose String() becomes an Expression's text is text consumed from the input (result of Parse/Take), never a constant. NOT decided. Decides the position-provenance clauses of the property, for all sites of package parser/v2 and goexpression: R1 every Expression/Range built by the parser goes through NewExpression/NewRange with positions that are parse.Position values obtained from the input being parsed (Position()/PositionAt(), or locals/parameters of that type); no Position, Range or Expression composite literal with position fields exists outside the three constructors, and the constructors copy index, line and column field by field; direct writes to Index/Line/Col exist only as a paired adjustment of Index and Col of the same position by the same constant; R2 every NameRange is NewRange(PositionAt(Index() − len(X.Name)), Position()) where X.Name is the field assigned by the name parser in the statement just before, for the same X; R3 (clamps) the bounds that come from go/parser positions are clamped before they are used to slice the source: in the extractor wrapper `end > len(content) → end = len(content)` and `start > end → start = end` follow the prefix subtraction and precede the return, and every slice bound taken from a go/ast End() position is tested (rejected or clamped) before the slice; parseGo slices and advances with the extractor's own start/end and converts them with PositionAt(from+start / from+end). NOT decided: absence of panics and hangs on arbitrary input, that the recorded text equals the source at the recorded range for every construct (value-level), error positions.",
 		Assumptions: []string{"github.com/a-h/parse Input.Position/PositionAt derive line and column from the byte index through its newline table"},
 		Trusted:     []string{"go/types", "x/tools go/packages, go/cfg"},
 		Run:         runC06,
@@ -22,6 +22,8 @@ func init() {
 
 func runC06(c *Ctx) {
 	c.load("./parser/v2", "./parser/v2/goexpression")
+	committedPrefixParsers(c, "C06.R4")
+	expressionTextFromInput(c, "C06.R5")
 	p := c.pkg("parser/v2")
 	info := p.TypesInfo
 	isParsePos := func(t types.Type) bool { return t != nil && t.String() == "github.com/a-h/parse.Position" }
@@ -518,4 +520,244 @@ func fileScopes(p *packages.Package) []*ast.FuncDecl {
 		}
 	}
 	return out
+}
+
+// committedPrefixParsers: C06.R4 — termination of the top-level loop. When a line starts with one of the template
+// keywords and contains "(", the Go-code reader un-reads it and hands it back to the template / css / script parsers.
+// The loop makes progress only if the parser for that keyword, once it has seen its keyword, either succeeds or
+// returns an ERROR; a parser that declines (ok=false, err=nil) after its keyword leaves the input where it was and the
+// loop spins forever on that line.
+func committedPrefixParsers(c *Ctx, rule string) {
+	pp := c.pkg("parser/v2")
+	info := pp.TypesInfo
+	// the keywords: constants K of strings.HasPrefix(<line>, K) disjunctions next to an un-read (Seek) in one function
+	keywords := map[string]bool{}
+	for _, fd := range allFuncDecls(pp) {
+		hasSeek := false
+		var ks []string
+		ast.Inspect(fd.Body, func(x ast.Node) bool {
+			if call, ok := x.(*ast.CallExpr); ok {
+				if fn := calleeOf(info, call); fn != nil {
+					if fullName(fn) == "strings.HasPrefix" && len(call.Args) == 2 {
+						if s, isC := constString(info, call.Args[1]); isC && strings.HasSuffix(s, " ") {
+							ks = append(ks, s)
+						}
+					}
+					if fn.Name() == "Seek" {
+						hasSeek = true
+					}
+				}
+			}
+			return true
+		})
+		if hasSeek && len(ks) >= 2 {
+			for _, k := range ks {
+				keywords[k] = true
+			}
+		}
+	}
+	if len(keywords) == 0 {
+		c.viol(rule, "anchor-lost:keyword-line-unread", "", "the top-level loop that un-reads lines starting with a template keyword was not found")
+		return
+	}
+	n := 0
+	seen := map[string]bool{}
+	for _, sc := range fileScopes(pp) {
+		// function literals inside this scope that have (…, ok bool, err error) results, or the scope itself
+		var bodies []*ast.BlockStmt
+		ast.Inspect(sc.Body, func(x ast.Node) bool {
+			if fl, ok := x.(*ast.FuncLit); ok {
+				bodies = append(bodies, fl.Body)
+			}
+			return true
+		})
+		if sc.Recv != nil || len(bodies) == 0 {
+			bodies = append(bodies, sc.Body)
+		}
+		for _, body := range bodies {
+			kw := ""
+			prefixIdx := -1
+			for i, st := range body.List {
+				is, ok := st.(*ast.IfStmt)
+				if !ok {
+					continue
+				}
+				ast.Inspect(is, func(x ast.Node) bool {
+					if x == ast.Node(is.Body) {
+						return false
+					}
+					if e, ok := x.(ast.Expr); ok {
+						if s, isC := constString(info, e); isC && keywords[s] && prefixIdx < 0 {
+							kw = s
+							prefixIdx = i
+						}
+					}
+					return true
+				})
+				if prefixIdx >= 0 {
+					break
+				}
+			}
+			if prefixIdx < 0 {
+				continue
+			}
+			seen[kw] = true
+			ord := 0
+			for _, st := range body.List[prefixIdx+1:] {
+				is, ok := st.(*ast.IfStmt)
+				if !ok {
+					continue
+				}
+				declines := false
+				ast.Inspect(is.Cond, func(y ast.Node) bool {
+					if ue, ok := y.(*ast.UnaryExpr); ok && ue.Op == token.NOT {
+						declines = true
+					}
+					return true
+				})
+				if !declines {
+					continue
+				}
+				ord++
+				n++
+				setsErr := false
+				bad := ""
+				for _, bs := range is.Body.List {
+					switch s := bs.(type) {
+					case *ast.AssignStmt:
+						for _, l := range s.Lhs {
+							if id, ok := l.(*ast.Ident); ok && id.Name == "err" {
+								setsErr = true
+							}
+						}
+					case *ast.ReturnStmt:
+						if len(s.Results) == 0 && !setsErr {
+							bad = "returns with ok=false and whatever err was (nil when the sub-parser simply did not match)"
+						}
+						if len(s.Results) > 0 && types.ExprString(s.Results[len(s.Results)-1]) == "nil" {
+							bad = "returns a nil error"
+						}
+					}
+				}
+				key := fmt.Sprintf("%s|after-keyword %q|decline#%d-is-an-error", funcKey(pp, sc), strings.TrimSpace(kw), ord)
+				c.check(bad == "", rule, key, c.pos(is.Pos()), "a failed sub-parse after the keyword sets an error",
+					fmt.Sprintf("%s: after the keyword %q was read, the branch `%s` %s. The top-level loop un-reads every line that starts with %q and contains \"(\" and asks this parser again, so declining without an error makes Parse loop forever on such a line (e.g. `%s_x(a string) {`)", sc.Name.Name, kw, types.ExprString(is.Cond), bad, kw, kw))
+			}
+		}
+	}
+	for k := range keywords {
+		if !seen[k] {
+			c.viol(rule, "anchor-lost:parser-for-keyword "+strings.TrimSpace(k), "", "no parser function tests the keyword "+k)
+		}
+	}
+	c.count("post_keyword_decline_branches", n)
+	c.floor(rule, 3)
+}
+
+// expressionTextFromInput: C06.R5 — when the text of an Expression is accumulated in a strings.Builder, everything
+// written to the builder is text that was consumed from the input (the result of a Parse / Take call), never a constant:
+// a constant that stands in for consumed text (a "\n" for a matched line break, say) makes Value differ from the source at
+// Range.From for the inputs where the two are not the same bytes (CRLF files).
+func expressionTextFromInput(c *Ctx, rule string) {
+	pp := c.pkg("parser/v2")
+	info := pp.TypesInfo
+	n := 0
+	for _, sc := range fileScopes(pp) {
+		// builders whose String() reaches NewExpression in this scope
+		builders := map[types.Object]bool{}
+		ast.Inspect(sc.Body, func(x ast.Node) bool {
+			call, ok := x.(*ast.CallExpr)
+			if !ok {
+				return true
+			}
+			if fn := calleeOf(info, call); fn == nil || fn.Name() != "NewExpression" || fn.Pkg() != pp.Types || len(call.Args) == 0 {
+				return true
+			}
+			ast.Inspect(call.Args[0], func(y ast.Node) bool {
+				if c2, ok := y.(*ast.CallExpr); ok {
+					if se, ok := c2.Fun.(*ast.SelectorExpr); ok && se.Sel.Name == "String" {
+						if id, ok := se.X.(*ast.Ident); ok {
+							if t := info.TypeOf(id); t != nil && strings.HasSuffix(strings.TrimPrefix(t.String(), "*"), "strings.Builder") {
+								builders[info.ObjectOf(id)] = true
+							}
+						}
+					}
+				}
+				return true
+			})
+			return true
+		})
+		if len(builders) == 0 {
+			continue
+		}
+		// variables holding consumed input: results of calls into the parse library / Parse methods
+		consumed := map[types.Object]bool{}
+		ast.Inspect(sc.Body, func(x ast.Node) bool {
+			as, ok := x.(*ast.AssignStmt)
+			if !ok || len(as.Rhs) != 1 {
+				return true
+			}
+			call, ok := as.Rhs[0].(*ast.CallExpr)
+			if !ok {
+				return true
+			}
+			se, ok := call.Fun.(*ast.SelectorExpr)
+			if !ok || !(se.Sel.Name == "Parse" || se.Sel.Name == "Take" || se.Sel.Name == "Peek") {
+				return true
+			}
+			if id, ok := as.Lhs[0].(*ast.Ident); ok && id.Name != "_" {
+				consumed[info.ObjectOf(id)] = true
+			}
+			return true
+		})
+		ord := 0
+		ast.Inspect(sc.Body, func(x ast.Node) bool {
+			call, ok := x.(*ast.CallExpr)
+			if !ok {
+				return true
+			}
+			se, ok := call.Fun.(*ast.SelectorExpr)
+			if !ok || !strings.HasPrefix(se.Sel.Name, "Write") {
+				return true
+			}
+			id, ok := se.X.(*ast.Ident)
+			if !ok || !builders[info.ObjectOf(id)] || len(call.Args) != 1 {
+				return true
+			}
+			ord++
+			n++
+			bad := ""
+			var walk func(e ast.Expr)
+			walk = func(e ast.Expr) {
+				e = ast.Unparen(e)
+				if tv, ok := info.Types[e]; ok && tv.Value != nil {
+					bad = "the constant " + types.ExprString(e)
+					return
+				}
+				switch e := e.(type) {
+				case *ast.BinaryExpr:
+					walk(e.X)
+					walk(e.Y)
+				case *ast.Ident:
+					if !consumed[info.ObjectOf(e)] {
+						bad = "the variable " + e.Name + ", which is not the result of a Parse/Take call"
+					}
+				case *ast.CallExpr:
+					if tv, ok := info.Types[e.Fun]; ok && tv.IsType() && len(e.Args) == 1 {
+						walk(e.Args[0])
+						return
+					}
+					bad = "the result of " + types.ExprString(e.Fun)
+				default:
+					bad = "`" + types.ExprString(e) + "`"
+				}
+			}
+			walk(call.Args[0])
+			c.check(bad == "", rule, fmt.Sprintf("%s|%s.%s#%d|consumed-input-only", funcKey(pp, sc), id.Name, se.Sel.Name, ord), c.pos(call.Pos()), "writes text consumed from the input",
+				fmt.Sprintf("%s accumulates the text of an Expression in %s and writes %s into it: the recorded text then differs from the source bytes at the recorded range whenever the input spells that part differently (a CRLF line break for a written \"\\n\"), so Value no longer starts at Range.From and the index arithmetic of later positions is off", sc.Name.Name, id.Name, bad))
+			return true
+		})
+	}
+	c.count("expression_builder_writes", n)
+	c.floor(rule, 3)
 }
